@@ -20,15 +20,19 @@
      Sp            HandleCreateSavepoint -> Store.CreateSavepoint: folds into the pending
                    checkpoint (created = FALSE, nothing is started) or starts a new one
      SpAgain       a second request while the pending checkpoint already is a savepoint
-     (Tick/Sp that start checkpoint n: barriers reach every operator, every operator takes its
-      DKV checkpoint n: WAL file n saved, entry n appended to its checkpoints document)
-     OpAck(o) SrAck   acknowledgements reach the store in any order; the last one completes the
-                   checkpoint: pending is cleared AT ONCE, publication is an asynchronous task
+     (Tick/Sp that start checkpoint n: StartCheckpoint(n) reaches every runner, which captures
+      its cursors - the cut - and acknowledges BEFORE it forwards the barrier)
+     Ack(SR)       the runners' acknowledgements reach the store; the barriers flow and every
+                   operator takes its DKV checkpoint n: WAL file n saved, entry n appended to its
+                   checkpoints document
+     Ack(o)        operator o's acknowledgement, in any order; the last one completes the
+                   checkpoint: pending is cleared AT ONCE, publication is an asynchronous task;
+                   the job checkpoint lists the operator checkpoints in ack order
      PubWrite      the task writes the job snapshot file, drops the previous one, queues the
                    retention notification [n]; for a savepoint it goes on to the artifact
      Retain(o)     operator o: RetainOnly(ids) + Save: WALs of dropped DKV checkpoints are
                    deleted, table files nothing references any more go
-     SpCopyOp(o)   CreateSavepointArtifact, operator o's turn: READ o's checkpoints document AS
+     SpCopyOp(o)   CreateSavepointArtifact, operator o's turn (ack order): READ o's checkpoints document AS
                    IT IS NOW, list the files of one of its entries, copy them and the document;
                    after the last operator: copy the job snapshot file (= savepoint complete,
                    its URI exists)
